@@ -165,7 +165,7 @@ def check_case(case, rec=None):
     return None
 
 
-N = {"quick": 450, "thorough": 7000}
+N = {"quick": 450, "thorough": 3500}
 
 
 def shard_plan(tier):
